@@ -59,18 +59,33 @@ func evalAll(prefix string, s cfgcorpus.BodySum, ctx *hcl.EvalContext, out *[]ev
 	}
 }
 
-// gapContext names the two tokens around byte offset off of text (for classes
-// of idempotence failures).
-func gapContext(text []byte, off int) string {
+// spacingSlot names the formatting decision that governs byte offset off of
+// text (a position inside or at the end of a gap): the indentation of a line,
+// the column of an "=" or of a trailing line comment (the two aligned cells),
+// or the spacing between two tokens inside a cell. It is the class suffix of
+// idempotence failures: which decision did not reach its fixpoint.
+func spacingSlot(text []byte, off int) string {
 	toks, ranges, _ := cfgcorpus.Lex(text)
 	for i := range toks {
-		if ranges[i][0] >= off || (ranges[i][0] <= off && off < ranges[i][1]) {
-			prev := "start"
-			if i > 0 {
-				prev = cfgcorpus.TokName(toks[i-1].Type)
-			}
-			return prev + "-" + cfgcorpus.TokName(toks[i].Type)
+		if ranges[i][1] <= off && !(ranges[i][0] == ranges[i][1] && ranges[i][0] >= off) {
+			continue
 		}
+		// toks[i] is the first token ending after off: the gap before it (or
+		// the token itself) is where the two passes differ.
+		if off > ranges[i][0] {
+			return "inside-" + cfgcorpus.TokName(toks[i].Type)
+		}
+		lineStart := i == 0 || toks[i-1].Type == hclsyntax.TokenNewline ||
+			(toks[i-1].Type == hclsyntax.TokenComment && strings.HasSuffix(toks[i-1].Bytes, "\n"))
+		switch {
+		case lineStart:
+			return "indent"
+		case toks[i].Type == hclsyntax.TokenEqual:
+			return "equals-column"
+		case toks[i].Type == hclsyntax.TokenComment && strings.HasSuffix(toks[i].Bytes, "\n"):
+			return "line-comment-column"
+		}
+		return "spacing." + cfgcorpus.TokName(toks[i-1].Type) + "-" + cfgcorpus.TokName(toks[i].Type)
 	}
 	return "end"
 }
@@ -143,7 +158,7 @@ func judge(c engine.Case) engine.Outcome {
 	out2 := hclwrite.Format(out)
 	if !bytes.Equal(out, out2) {
 		off := firstDiff(out, out2)
-		return engine.Fail("c09.not-idempotent."+gapContext(out, off), "Format is not idempotent on %q: first pass %q, second pass %q (first difference at byte %d)", src, out, out2, off)
+		return engine.Fail("c09.not-idempotent."+spacingSlot(out, off), "Format is not idempotent on %q: first pass %q, second pass %q (first difference at byte %d)", src, out, out2, off)
 	}
 	if !bytes.Equal(src, out) {
 		counters.Add("inputs_changed_by_format", 1)
